@@ -149,6 +149,9 @@ type Flags struct {
 }
 
 type ASpec struct {
+	// NoComposite: builders of random operations do not put random schema compositions into bodies (C01 judges
+	// build failures per feature cell; compositions mix features whose failures are open findings).
+	NoComposite   bool            `json:"-"`
 	Base          Base            `json:"base"`
 	SpecName      string          `json:"specName"`
 	Flags         Flags           `json:"flags"`
